@@ -10,6 +10,10 @@ Layers
       commit returns, table effects in process_commits): for every schedule the pipeline state
       shows exactly the trees of the atomic heap and equals it once drained   theorems (12)-(13)
 
+  P1'' transactions (several operations per commit, one planning order), LIFO free-entry stack
+      (address reuse), ref-count table growth                       theorems (14)-(21), second half
+      of the file; the model the `c10` driver runs
+
 Quantification: every variant, every heap satisfying `Inv` (in particular every heap reachable
 by a legal history, theorem (4)), every key type with decidable equality, every data type,
 every tree shape (the mutual inductive `NRef` / `NRefs`: any depth, any fan-out, any sharing:
@@ -23,6 +27,11 @@ Hypotheses that carry the property's side conditions:
 -/
 import Pdb.Proofs.C10Pack
 import Pdb.Proofs.C10Stage
+import Pdb.Proofs.C10TxSim
+import Pdb.Proofs.C10TxInv
+import Pdb.Proofs.C10TxWitness
+import Pdb.Proofs.C10RcTables
+import Pdb.Proofs.C10TxRead
 
 namespace Pdb.MultiTree
 set_option linter.unusedSectionVars false
@@ -465,5 +474,325 @@ example : ((exCmds.take 2).foldl cmdStep (PState.init .plain : PState Nat Nat)).
 #print axioms C10_variant_rules
 #print axioms C10_pipeline_refines
 #print axioms C10_all_deref_empty_pipeline
+
+
+/-! ## Transactions (several operations per commit) and address reuse
+
+Model: `TState` (Pdb/Model/MultiTree.lean, section "Transactions"): `commit_changes` literally -
+validate every operation against the state before the call, assemble (`claim_tree_values`:
+`claim_entries` pops the LIFO free-entry stack, then bumps the fill mark; `to_dereference`
+counters; root `Set` / `Reference` changes and NewValue / IncrementReference / DereferenceChildren
+node changes), queue; `process_commits` applies ALL root changes of the change set, THEN all node
+changes (`IndexedChangeSet::write_plan`), the dereference walk pushes every freed address on the
+free stack.  This is the model the `c10` driver runs against the real Db (transactions of 1..6
+operations over 1..3 multitree columns plus a key-value column, rejected transactions included).
+
+`specTx v H free next ops` is the ATOMIC reading of a transaction: the same planning order applied
+at once to the atomic heap `H`, with the addresses the allocator state `(free, next)` hands out.
+`inOrderTx` executes the operations one after the other (`insertTreeA` = InsertTree with its
+claimed addresses).
+
+Hypotheses and what is outside them (each confirmed on the real crate, harness/src/c10.rs scenarios)
+  `DerefApart ops`     no InsertTree k together with a DereferenceTree k, no ReferenceTree k after a
+                       DereferenceTree k, in ONE transaction.  Outside it the planning order shows:
+                       `[DereferenceTree k, ReferenceTree k]` on count 1 KEEPS k - admissible (the
+                       references of a transaction are counted before its dereferences: net
+                       count; theorem (17a)); `[DereferenceTree k, InsertTree k t']` LOSES t' and
+                       leaks its nodes - FINDING F41, violates "an accepted tree insertion makes the
+                       root ... readable" (theorems (17b-d)).
+  `LegalInOrder`       the property's side conditions read in order: an inserted key has no live
+                       root ("distinct live root keys"), `Existing` children name present nodes
+                       ("sharing of nodes of live trees").  The Db accepts both violations
+                       (`validate_change` checks neither): a second root under a live key leaks the
+                       nodes of one of the two trees (17e), a dangling `Existing` address is stored
+                       and gets a ref-count entry (17f).  Outside the quantifier of C10; no claim.
+  `DerefLive`          a DereferenceTree names a root that is live in the atomic heap.  The Db also
+                       accepts a DereferenceTree of a root whose last dereference is still queued
+                       (the root is still readable); processed, it is a no-op.
+The old hypothesis `LegalRun` (theorems (4), (12)) is the one-operation case of these. -/
+
+/-- (14) A commit of the pipeline model either queues the whole transaction or changes nothing:
+an error leaves the state EQUAL (no claimed slot, no counter, nothing queued), and the
+transaction is accepted iff every operation passes `validate_change` - after validation the
+assembly loop cannot fail. -/
+theorem C10T_commit_atomic (s : TState K D) (ops : List (Op K D)) :
+    ((s.commit ops).2 ≠ .ok () → (s.commit ops).1 = s) ∧
+    ((s.commit ops).2 = .ok () ↔ validateOps s.variant s.viewRoot ops = .ok) :=
+  ⟨TState.commit_err s ops, TState.commit_ok_iff s ops⟩
+
+/-- (15) The planning order agrees with the order given, up to the order of the root list
+(`HeapEqv`: same nodes, same ref-count map, root association lists permutations of each other),
+for every accepted transaction within `DerefApart` on a heap satisfying the invariant.
+(`applyTx_eqv_inOrderE`, Pdb/Proofs/C10TxEqv.lean, is the same statement without any invariant,
+with errors of the dereference walk propagated on both sides.) -/
+theorem C10T_tx_in_order (v : Variant) (H : Heap K D) (free : List Addr) (next : Addr)
+    (ops : List (Op K D)) (hi : InvR v H) (hs : SupplyOk H free next) (hda : DerefApart ops)
+    (hl : LegalInOrder v (H, free, next) ops) (hval : validateOps v (viewOf H) ops = .ok) :
+    HeapEqv (specTx v H free next ops) (inOrderTx v H free next ops) :=
+  specTx_eqv_inOrder_of_inv v H free next ops hi hs hda hl hval
+
+/-- (16) RcInv for transactions: every legal transaction (accepted or rejected), applied in the
+implementation's planning order with new nodes at REUSED addresses, preserves the invariant
+(count = number of references with multiplicity, no dangling reference, acyclic, entries only for
+counts ≥ 2); it never fails when processed; roots of keys it does not name are untouched; nodes
+that stay are unchanged and no node appears outside the claimed addresses. -/
+theorem C10T_tx_RcInv (v : Variant) (H : Heap K D) (free : List Addr) (next : Addr)
+    (ops : List (Op K D)) (hi : InvR v H) (hs : SupplyOk H free next) (hda : DerefApart ops)
+    (hl : LegalInOrder v (H, free, next) ops) :
+    InvR v (specTx v H free next ops) ∧
+    (validateOps v (viewOf H) ops = .ok →
+      ∃ r, applyChangeSet v (H, []) (specCs v H free next ops) = .ok r) ∧
+    (∀ k, (∀ op ∈ ops, op.key ≠ k) → (specTx v H free next ops).roots.get k = H.roots.get k) ∧
+    (∀ b n, present H b → (specTx v H free next ops).nodes.get b = some n → H.nodes.get b = some n) ∧
+    (∀ b, b ∉ free → b < next → ¬ present H b → ¬ present (specTx v H free next ops) b) :=
+  ⟨specTx_invR v H free next ops hi hs hda hl,
+   fun hval => applyTx_ok_of_inv v H free next ops hi hs hda hl hval,
+   fun k hk => specTx_frame_roots v H free next ops k hk,
+   (specTx_frame_nodes v H free next ops hi hs hda hl).1,
+   (specTx_frame_nodes v H free next ops hi hs hda hl).2⟩
+
+/-! ### (17) what the planning order does outside `DerefApart` / `LegalInOrder` (concrete, `decide`) -/
+
+/-- (17a) ADMISSIBLE: `[DereferenceTree k, ReferenceTree k]` on a root with count 1 keeps the tree
+(the Reference is planned first: 1 -> 2 -> 1, no walk), although executed in the order given the
+tree would be removed.  Inside one transaction the references are counted before the
+dereferences: the count changes by the net amount and never visibly reaches zero. -/
+theorem C10T_deref_ref_same_tx_keeps :
+    Witness.rootOf (Witness.run .rcRoots Witness.derefRef) 1 = some (10, [0, 1], 1) ∧
+    Witness.nodeAddrs (Witness.run .rcRoots Witness.derefRef) = [1, 0] ∧
+    ((inOrderTx .rcRoots (Witness.run .rcRoots [.commit [.insert 1 Witness.t1], .process]).heap [] 2
+        [.dereference 1, .reference 1]).roots.get 1).isNone = true :=
+  ⟨Witness.deref_ref_same_tx_keeps.1, Witness.deref_ref_same_tx_keeps.2.1,
+   Witness.deref_ref_in_order_drops.1⟩
+
+/-- (17b) FINDING F41, plain column: `[DereferenceTree k, InsertTree k t']` on a live root is
+accepted and reads as t' while queued; processed, the root is gone and the node of t' is leaked
+(one entry left, unreachable, never reclaimed) - the accepted insertion does NOT read back. -/
+theorem C10T_F41_plain :
+    Witness.viewRootOf (Witness.run .plain Witness.derefInsert) 1 = some (20, [2]) ∧
+    (let s := Witness.run .plain (Witness.derefInsert ++ [.process])
+     Witness.rootOf s 1 = none ∧ Witness.viewRootOf s 1 = none ∧ Witness.nodeAddrs s = [2] ∧
+     s.queue.length = 0 ∧ (s.countEntries (fun _ => 0)).toOption = some 1) :=
+  ⟨Witness.F41_queued_view_shows_new_tree .plain (Or.inl rfl), Witness.F41_plain_tree_lost_node_leaked⟩
+
+/-- (17c) FINDING F41, ref-counted roots: the Set only raises the count of the OLD root, the
+dereference lowers it again: k keeps the OLD tree, the node of t' is leaked. -/
+theorem C10T_F41_rc :
+    Witness.viewRootOf (Witness.run .rcRoots Witness.derefInsert) 1 = some (20, [2]) ∧
+    (let s := Witness.run .rcRoots (Witness.derefInsert ++ [.process])
+     Witness.rootOf s 1 = some (10, [0, 1], 1) ∧ Witness.nodeAddrs s = [2, 1, 0] ∧
+     s.queue.length = 0 ∧ (s.countEntries (fun _ => 0)).toOption = some 4) :=
+  ⟨Witness.F41_queued_view_shows_new_tree .rcRoots (Or.inr rfl), Witness.F41_rc_old_tree_kept_node_leaked⟩
+
+/-- (17d) ... whereas read in order the transaction leaves k -> t' (one root, one node); it is
+outside `DerefApart`. -/
+theorem C10T_F41_in_order_reading (v : Variant) (hv : v = .plain ∨ v = .rcRoots) :
+    (let h := (Witness.run v [.commit [.insert 1 Witness.t1], .process]).heap
+     ((inOrderTx v h [] 2 [.dereference 1, .insert 1 Witness.t2]).roots.get 1).map
+        (fun e => (e.1.data, e.2)) = some (20, 1) ∧
+     (inOrderTx v h [] 2 [.dereference 1, .insert 1 Witness.t2]).nodes.l.length = 1) ∧
+    ¬ DerefApart [(.dereference 1 : Op Nat Nat), .insert 1 Witness.t2] :=
+  ⟨Witness.F41_in_order_reading v hv, Witness.F41_not_derefApart⟩
+
+/-- (17e) outside the quantifier ("distinct live root keys"), accepted: InsertTree under a live
+key.  plain: the new root replaces the old one, whose nodes leak (2 entries left after the tree
+is dereferenced); ref-counted: the old root stays with count 2, the new nodes leak. -/
+theorem C10T_insert_live_key_leaks :
+    (let s := Witness.run .plain [.commit [.insert 1 Witness.t1], .process,
+        .commit [.insert 1 Witness.t2], .process, .commit [.dereference 1], .process]
+     Witness.rootOf s 1 = none ∧ Witness.nodeAddrs s = [1, 0] ∧
+     (s.countEntries (fun _ => 0)).toOption = some 2) ∧
+    (let s := Witness.run .rcRoots [.commit [.insert 1 Witness.t1], .process,
+        .commit [.insert 1 Witness.t2], .process]
+     Witness.rootOf s 1 = some (10, [0, 1], 2) ∧ Witness.nodeAddrs s = [2, 1, 0]) :=
+  ⟨Witness.insert_live_key_plain_replaces_and_leaks, Witness.insert_live_key_rc_counts_and_leaks⟩
+
+/-- (17f) outside the quantifier ("children name nodes of live trees"), accepted: an `Existing`
+child at an address that holds no node is stored as it is and a reference count of 2 is recorded
+for the empty address. -/
+theorem C10T_dangling_existing_accepted :
+    let s := Witness.run .plain [.commit [.insert 1 ⟨30, .cons (.existing 77) .nil⟩], .process]
+    Witness.rootOf s 1 = some (30, [77], 1) ∧ (s.heap.nodes.get 77).isNone = true ∧
+    s.heap.rc.get 77 = some 2 :=
+  Witness.dangling_existing_accepted
+
+/-! ### (18) the pipeline with address reuse refines the atomic transactions -/
+
+/-- reading a subtree through a view that shows every node of a closed heap gives what the heap
+gives (no address order needed) -/
+theorem readNode_viewC (H : Heap K D) (hs : ShapeC H) (view : Addr → Option (Node D))
+    (hview : ∀ a n, H.nodes.get a = some n → view a = some n) :
+    ∀ (f a : Nat), present H a → readNode view f a = readNode H.nodes.get f a := by
+  intro f
+  induction f with
+  | zero => intro a _; rfl
+  | succ f ih =>
+    intro a ha
+    obtain ⟨n, hn⟩ := (present_iff H a).mp ha
+    simp only [readNode, hn, hview a n hn]
+    congr 1
+    apply mapOpt_congr
+    intro c hc
+    exact ih c (hs.closedN a n hn c hc)
+
+/-- (18) For EVERY legal schedule of transaction commits and process steps of the pipeline model
+with the LIFO free-entry stack (addresses freed by a processed dereference are claimed again by
+later commits, also while older commits are still queued): with `H` the atomic heap (every
+accepted transaction applied at once, in commit order, with the addresses the pipeline claimed)
+  * `H` satisfies the invariant (so (16) and C10R_present_iff_reachable apply to it);
+  * every root of `H` is readable through the commit overlay of the pipeline state, and every
+    node of `H` through the address overlay - whatever is still queued, whatever was reused -,
+    hence every tree reads through the views exactly as in `H` (for every fuel);
+  * once the queue is empty the tables of the pipeline state ARE `H`;
+  * slot accounting: the free stack, the slots claimed by queued commits and the table nodes are
+    pairwise disjoint, without repetition, and together exactly the addresses below the fill mark
+    (no slot is lost, none is handed out twice). -/
+theorem C10T_pipeline_refines (v : Variant) (cmds : List (CmdT K D))
+    (hl : LegalRunT v (TState.init v, (Heap.empty : Heap K D)) cmds) :
+    let s := (runT v (TState.init v, (Heap.empty : Heap K D)) cmds).1
+    let H := (runT v (TState.init v, (Heap.empty : Heap K D)) cmds).2
+    InvR v H ∧
+    (∀ k r c, H.roots.get k = some (r, c) →
+      s.viewRoot k = some r ∧
+      ∀ fuel, mapOpt (readNode s.viewNode fuel) r.children = mapOpt (readNode H.nodes.get fuel) r.children) ∧
+    (∀ a n, H.nodes.get a = some n → s.viewNode a = some n) ∧
+    (s.queue = [] → s.heap.nodes = H.nodes ∧ s.heap.rc = H.rc ∧ s.heap.roots = H.roots) ∧
+    AllocInv s := by
+  intro s H
+  have sim : SimT v s H := simT_run v cmds (fun H free next ops => specTx_invR v H free next ops) hl
+  obtain ⟨rank, hsr⟩ := sim.inv.shape
+  refine ⟨sim.inv, ?_, sim.viewN, sim.drained, sim.alloc⟩
+  intro k r c hg
+  refine ⟨sim.viewR k r c hg, ?_⟩
+  intro fuel
+  apply mapOpt_congr
+  intro x hx
+  exact readNode_viewC H hsr.core s.viewNode sim.viewN fuel x (hsr.core.closedR k (r, c) hg x hx)
+
+/-- (19) Storage is reclaimed: for every legal schedule that ends drained with every tree
+dereferenced (counting variants) the tables hold no node, no ref-count entry and no root, the
+pipeline model reports zero entries, and EVERY address below the fill mark is back on the free
+stack, exactly once. -/
+theorem C10T_all_deref_reclaimed (v : Variant) (cmds : List (CmdT K D)) (hv : v ≠ .appendOnly)
+    (hl : LegalRunT v (TState.init v, (Heap.empty : Heap K D)) cmds)
+    (hq : (runT v (TState.init v, (Heap.empty : Heap K D)) cmds).1.queue = [])
+    (hn : ∀ k, (runT v (TState.init v, (Heap.empty : Heap K D)) cmds).2.roots.get k = none)
+    (len : D → Nat) :
+    let s := (runT v (TState.init v, (Heap.empty : Heap K D)) cmds).1
+    s.heap.nodes.l = [] ∧ s.heap.rc.l = [] ∧ s.heap.roots.l = [] ∧
+    s.countEntries len = .ok 0 ∧
+    s.free.Nodup ∧ ∀ a, a < s.heap.next ↔ a ∈ s.free := by
+  have r := C10T_pipeline_refines v cmds hl
+  simp only at r
+  revert r hq hn
+  generalize runT v (TState.init v, (Heap.empty : Heap K D)) cmds = x
+  obtain ⟨s, H⟩ := x
+  intro hq hn r
+  dsimp only at hq hn r ⊢
+  obtain ⟨hi, _, _, hd, ha⟩ := r
+  obtain ⟨e1, e2, e3⟩ := hd hq
+  have hnodes : ∀ a, s.heap.nodes.get a = none := by
+    intro a
+    rw [e1]
+    apply (not_present_iff _ a).mp
+    intro hp
+    exact not_reach_of_no_roots _ hn a ((present_iff_reachR v _ hi hv a).mp hp)
+  have hrc : ∀ a, s.heap.rc.get a = none := by
+    intro a
+    cases hr : s.heap.rc.get a with
+    | none => rfl
+    | some c =>
+      rw [e2] at hr
+      have := ((hi.counts hv).rcEntries a c hr).2
+      rw [present, ← e1, hnodes a] at this
+      cases this
+  have hroots : ∀ k, s.heap.roots.get k = none := by intro k; rw [e3]; exact hn k
+  have l1 := FMap.eq_nil_of_get_none s.heap.nodes hnodes
+  have l2 := FMap.eq_nil_of_get_none s.heap.rc hrc
+  have l3 := FMap.eq_nil_of_get_none s.heap.roots hroots
+  have hqc : queueClaimed s.queue = [] := by rw [hq]; rfl
+  refine ⟨l1, l2, l3, ?_, ?_, ?_⟩
+  · simp [TState.countEntries, FMap.all, FMap.size, hq, l1, l3]
+  · have := ha.nodup
+    rw [hqc, List.append_nil] at this
+    exact this
+  · intro a
+    have := ha.cover a
+    rw [hqc] at this
+    simp only [List.not_mem_nil, false_or, present, hnodes a, Option.isSome_none,
+      Bool.false_eq_true, or_false] at this
+    exact this
+
+/-! ### (21) read back, with reused addresses and inside transactions -/
+
+/-- (21) Read back for transactions.  `StoredTree vr vn k t` (Pdb/Proofs/C10TxDefs.lean): the root
+entry under `k` carries exactly the data of `t`, and recursively every NEW node of `t` is readable
+at the address recorded with its parent, with exactly its data and its children in the order
+supplied, every `Existing a` child IS the address `a` (fuel-free form of (5); nodes that were
+present stay what they were: (16)).  After a legal accepted transaction - applied in the planning
+order, new nodes at reused addresses - EVERY tree inserted by it, whatever its position among
+the operations, is stored in the resulting heap. -/
+theorem C10T_read_back (v : Variant) (H : Heap K D) (free : List Addr) (next : Addr)
+    (ops : List (Op K D)) (hi : InvR v H) (hs : SupplyOk H free next) (hda : DerefApart ops)
+    (hl : LegalInOrder v (H, free, next) ops) (hval : validateOps v (viewOf H) ops = .ok) :
+    ∀ k t, Op.insert k t ∈ ops →
+      StoredTree (viewOf (specTx v H free next ops)) (specTx v H free next ops).nodes.get k t :=
+  specTx_stored v H free next ops hi hs hda hl hval
+
+/-- (21') InsertTree alone, new nodes at ANY pairwise distinct free addresses. -/
+theorem C10T_read_back_insert (v : Variant) (h : Heap K D) (fresh : List Addr) (k : K)
+    (t : NewNode D) (hi : InvR v h) (hl : t.children.live h) (hk : h.roots.get k = none)
+    (hn : fresh.Nodup) (hf : ∀ b ∈ fresh, ¬ present h b) (hlen : t.children.newCount ≤ fresh.length) :
+    StoredTree (viewOf (insertTreeA v h fresh k t)) (insertTreeA v h fresh k t).nodes.get k t :=
+  insertTreeA_stored v h fresh k t hi hl hk hn hf hlen
+
+/-- (21'') Through the pipeline: as soon as the commit returns every tree it inserted is readable
+through the commit overlay exactly as supplied; and at every later point of every legal schedule
+a tree that is stored in the atomic heap is stored in what the views show. -/
+theorem C10T_read_back_pipeline (v : Variant) (cmds : List (CmdT K D))
+    (hl : LegalRunT v (TState.init v, (Heap.empty : Heap K D)) cmds) :
+    let s := (runT v (TState.init v, (Heap.empty : Heap K D)) cmds).1
+    let H := (runT v (TState.init v, (Heap.empty : Heap K D)) cmds).2
+    (∀ k t, StoredTree (viewOf H) H.nodes.get k t → StoredTree s.viewRoot s.viewNode k t) ∧
+    (∀ ops, DerefApart ops → DerefLive H ops → LegalInOrder v (H, s.free, s.heap.next) ops →
+      validateOps v (viewOf H) ops = .ok →
+      ∀ k t, Op.insert k t ∈ ops →
+        StoredTree (stepT s (.commit ops)).viewRoot (stepT s (.commit ops)).viewNode k t) := by
+  intro s H
+  have sim : SimT v s H := simT_run v cmds (fun H free next ops => specTx_invR v H free next ops) hl
+  exact ⟨fun k t st => stored_of_views H s.viewRoot s.viewNode sim.viewR sim.viewN k t st,
+    fun ops hda hdl hleg hval => commit_stored v s H sim ops hda hdl hleg hval⟩
+
+/-! ### (20) ref-count table growth -/
+
+/-- (20) The ref-count TABLES (a current table plus a queue of older tables that are being
+reindexed into it, Pdb/Model/RcTables.lean: inc / dec with their "found in a queued table"
+branches, growth at any moment and by any number of steps, reindex passes with `drop_ref_count`)
+refine the single map `Heap.rc` of the heap model through the lookup in search order: for every
+sequence of operations the effective map is what the single-map operations produce. -/
+theorem C10T_rc_tables_refine (ops : List Rc.RcOp) :
+    (ops.foldl Rc.stepTabs Rc.Tabs.empty).abs = ops.foldl Rc.stepMap (fun _ => none) :=
+  Rc.abs_run ops
+
+-- non-vacuity of (16), (18), (19): concrete legal schedules (see also `SimEx` in
+-- Pdb/Proofs/C10TxSim.lean: a 9-step schedule in which a freed slot is claimed again, and `TxEx`
+-- in Pdb/Proofs/C10TxInv.lean: a 5-operation transaction on a heap with a shared node)
+example := C10T_pipeline_refines .rcRoots SimEx.sched SimEx.sched_legal
+
+#print axioms C10T_commit_atomic
+#print axioms C10T_tx_in_order
+#print axioms C10T_tx_RcInv
+#print axioms C10T_deref_ref_same_tx_keeps
+#print axioms C10T_F41_plain
+#print axioms C10T_F41_rc
+#print axioms C10T_F41_in_order_reading
+#print axioms C10T_insert_live_key_leaks
+#print axioms C10T_dangling_existing_accepted
+#print axioms C10T_pipeline_refines
+#print axioms C10T_all_deref_reclaimed
+#print axioms C10T_rc_tables_refine
+#print axioms C10T_read_back
+#print axioms C10T_read_back_insert
+#print axioms C10T_read_back_pipeline
 
 end Pdb.MultiTree
